@@ -1,5 +1,5 @@
 (* C18 — HDLC transport reassembles segmented responses exactly, for every segmentation. *)
-From Dlms Require Import Base AddrModel AddrSpec FrameModel FrameSpec HdlcConnModel HdlcStreamProofs TransportModel TransportProofs TransportE2E TransportMeter.
+From Dlms Require Import Base AddrModel AddrSpec FrameModel FrameSpec HdlcConnModel HdlcStreamProofs TransportModel TransportProofs TransportE2E TransportMeter SessionCounters.
 
 (* a request that fits the maximum information size goes out as ONE information frame whose payload
    is the LLC command header followed by the APDU, unsegmented, numbered with the link's counters *)
@@ -172,6 +172,16 @@ Proof.
   - repeat split; vm_compute; reflexivity.
 Qed.
 
+(* over such a session the link's four counters count the information frames: the numbers the client puts into its next
+   frame are (requests sent) mod 8 and (segments received) mod 8 - whatever the number of exchanges and segmentations *)
+Theorem C18_session_counters : forall es l, small l ->
+  small (session_link l es) /\
+  server_ssn (session_link l es) = (server_ssn l + N.of_nat (length es)) mod 8 /\
+  client_rsn (session_link l es) = (client_rsn l + N.of_nat (length es)) mod 8 /\
+  client_ssn (session_link l es) = (client_ssn l + N.of_nat (segments es)) mod 8 /\
+  server_rsn (session_link l es) = (server_rsn l + N.of_nat (segments es)) mod 8.
+Proof. exact session_counters. Qed.
+
 Definition ex_ps : list bytes := [[230; 231; 0; 196; 1; 126]; [126; 0; 9]].
 Example C18_any_segmentation_nonvacuous :
   let la := after_request (c_link (t_conn ex_t1)) in
@@ -195,3 +205,4 @@ Print Assumptions C18_connect.
 Print Assumptions C18_disconnect.
 Print Assumptions C18_send_any_segmentation.
 Print Assumptions C18_session.
+Print Assumptions C18_session_counters.
